@@ -81,11 +81,17 @@ def Ev.argIds : Ev → List Uuid
   | .gcv c p => [c, p] | .as c v .. => [c, v] | .gs c => [c] | .reopen => []
 def Ev.drawn : Ev → Option Uuid | .av _ _ _ n _ => some n | .avLib _ _ _ n _ => some n | _ => none
 
+/-- freshness of the id drawn by one event, relative to the ids seen so far -/
+def FreshEv (e : Ev) (seen : List Uuid) : Prop :=
+  match e.drawn with
+  | some n => n ≠ Uuid.nil ∧ n ∉ seen ∧ n ∉ e.argIds
+  | none => True
+
+def seenAfter (e : Ev) (seen : List Uuid) : List Uuid := e.argIds ++ e.drawn.toList ++ seen
+
 /-- every drawn id is non-nil and differs from every id that occurred before it (as argument or drawn) -/
 def Fresh : List Ev → List Uuid → Prop
   | [], _ => True
-  | e :: es, seen =>
-    (match e.drawn with | some n => n ≠ Uuid.nil ∧ n ∉ seen ∧ n ∉ e.argIds | none => True) ∧
-    Fresh es (e.argIds ++ (e.drawn.toList) ++ seen)
+  | e :: es, seen => FreshEv e seen ∧ Fresh es (seenAfter e seen)
 
 end Tcs
